@@ -181,6 +181,8 @@ def case_construct(ctx, spec):
 # ---- universe scoping in real runs ----------------------------------------------------------------
 @st.composite
 def universe_spec(draw):
+    if draw(st.integers(0, 3)) == 0:
+        return draw(late_attach_spec())
     spec = draw(gen.backtest_spec(max_dates=10, allow_risk=False))
     # sometimes declare a ticker that is not in the data (must be dropped from the universe)
     nodes = list(gen.walk_nodes(spec["tree"]))
@@ -191,10 +193,26 @@ def universe_spec(draw):
     return spec
 
 
+@st.composite
+def late_attach_spec(draw):
+    """a parent (declaring tickers or nothing at all) gets a sub-strategy attached afterwards with parent="""
+    spec = draw(gen.backtest_spec(max_dates=8, nested=False, allow_risk=False, allow_flow=False, scale_free=True))
+    tickers = sorted(spec["prices"])
+    sub_t = draw(st.lists(st.sampled_from(tickers), min_size=1, max_size=len(tickers), unique=True))
+    sub = {"name": "late1", "kind": "Strategy", "algos": [["Probe", {"key": "c19uni", "run_always": True}], ["RunDaily", {}], ["SelectAll", {}], ["WeighEqually", {}], ["Rebalance", {}]], "children": list(sub_t)}
+    root = spec["tree"]
+    root["algos"] = [["Probe", {"key": "c19uni", "run_always": True}], ["RunDaily", {}], ["SelectAll", {}], ["WeighEqually", {}], ["Rebalance", {}]]
+    if draw(st.booleans()):
+        root.pop("children", None)
+    root["late"] = [sub]
+    return spec
+
+
 def declared_of(nd):
     kids = nd.get("children")
+    late = [c["name"] for c in nd.get("late") or []]
     if not kids:
-        return None, []
+        return None, late
     tick, subs = [], []
     for c in kids:
         if isinstance(c, str):
@@ -203,7 +221,7 @@ def declared_of(nd):
             tick.append(c["sec"])
         else:
             subs.append(c["name"])
-    return tick, subs
+    return tick, subs + late
 
 
 def case_universe(ctx, spec):
@@ -220,7 +238,9 @@ def case_universe(ctx, spec):
         tick, subs = declared_of(nd)
         cols = [str(c) for c in target.universe.columns]
         if tick is None:
-            exp = list(data_cols)
+            # nothing declared at construction: all tickers, plus a column per sub-strategy attached later
+            exp = list(data_cols) + subs
+            seen["scoped"] = seen["scoped"] or bool(subs)
         else:
             exp = [t for t in data_cols if t in tick] + subs
             seen["scoped"] = seen["scoped"] or bool(subs)
